@@ -88,7 +88,10 @@ ParseFloatContract(ev) ==
         ELSE IF sc.v = "A" THEN
             IF r.k # "ok" THEN << << GrammarProp(ev, sc), "specification accepts, implementation rejects" >> >>
             ELSE IF r.n # n THEN << << "C11", "accepted input not consumed in full" >> >>
-            ELSE LET w == FloatValueWhy(ev, f, sc) IN V(w = "", ValueProp(ev, f), w)
+            ELSE LET w == FloatValueWhy(ev, f, sc) IN
+                 V(w = "", ValueProp(ev, f), w)
+                 \* "no numeric input ever yields NaN" and "the sign of zero and of infinity is preserved" are clauses of C15 too
+                 \o (IF w = "numeric input produced NaN" \/ (w = "wrong sign" /\ r.v.cls \in {"zero", "inf"}) THEN << << "C15", w >> >> ELSE << >>)
         ELSE IF sp.k # "no" THEN
             \* a special string without a sign under required_mantissa_sign: the grammar of numbers demands the sign, the
             \* documentation of the special strings does not say - accepted or MissingSign, both pass
@@ -303,7 +306,9 @@ WriteFloatContract(ev) ==
         IF ab # << >> THEN
             \* no output at all also breaks what the property of this writer says about "every finite float"
             ab \o bc \o (IF v.cls \in {"finite", "zero"}
-                   THEN << << (IF Radix(f) = 10 THEN "C02" ELSE IF IsPow2Radix(Radix(f)) THEN "C06" ELSE "C07"),
+                   THEN << << (IF IsPow2Radix(Radix(f)) \/ Radix(f) = 10
+                                 THEN (IF IsDefaultDigits(o) THEN (IF Radix(f) = 10 THEN "C02" ELSE "C06") ELSE "C14")
+                                 ELSE "C07"),
                               "no output for a finite float: " \o r.k >> >>
                    ELSE << >>)
         ELSE IF r.k # "ok" THEN bc
@@ -320,7 +325,9 @@ WriteFloatContract(ev) ==
                    ELSE IF sc.v # "A" THEN
                         \* not a numeral of the format: what lexical wrote cannot be read back (C08), and it does not denote the
                         \* float either, which is what the writer's own property demands (C02 / C06 / C07)
-                        LET own == IF Radix(f) = 10 /\ ExponentBase(f) = 10 THEN (IF IsDefaultDigits(o) THEN "C02" ELSE "C14")
+                        LET own == IF Radix(f) = 10 /\ ExponentBase(f) = 10
+                                   THEN (IF IsDefaultDigits(o) /\ o.point = DefaultWF.point /\ o.exp = DefaultWF.exp /\ ~o.trim
+                                         THEN "C02" ELSE "C14")       \* digit / notation / punctuation options: C14's subject
                                    ELSE IF IsPow2Radix(Radix(f)) THEN "C06" ELSE "C07" IN
                         << << own, "output is not a number of the format: " \o sc.why >> >>
                         \o (IF own # "C07" THEN << << "C08", "output is not a number of the format: " \o sc.why >> >> ELSE << >>)
@@ -475,6 +482,15 @@ RoundTripAt(o, i) ==
         => /\ q.res.k = "ok"
            /\ (ExactBack(w) => SameVal(q.res.v, w.v))
 
+(* C16: "compact output parses to the same value": a parse-back recorded in ANOTHER build configuration than the write *)
+CrossBuildBackAt(o, i) ==
+    LET q == o[i] IN
+    (q.op = "parse" /\ "back" \in DOMAIN q /\ ~q.partial) =>
+    \A j \in Others(o, i) :
+        LET w == o[j] IN
+        (w.op = "write" /\ w.res.k = "ok" /\ q.ty = w.ty /\ q.in = w.res.out /\ q.back = w.id /\ q.cfg # w.cfg /\ w.fmt = 0)
+        => q.res.k = "ok" /\ SameVal(q.res.v, w.v)
+
 (* C14: digits under max/min_significant_digits follow from the default output of the same float *)
 WFScan(ev) == ScanComplete("float", FmtOf(ev), WFAsPF(WFOpts(ev)), ev.res.out, Len(ev.res.out))
 
@@ -592,6 +608,7 @@ RelationsAt(o, i) ==
     \o V(AdditiveAt(o, i),           "C16", "results differ between build configurations")
     \o V(FacadeEqualsCoreAt(o, i),   "C17", "lexical and lexical-core disagree")
     \o V(RoundTripAt(o, i),          "C08", "written bytes do not parse back to the same value")
+    \o V(CrossBuildBackAt(o, i),     "C16", "output of one build does not parse back to the same value in another build")
     \o V(LossyAgreesAt(o, i),        "C19", "lossy parsing changed more than the precision")
     \o V(SepFreeSameAt(o, i),        "C13", "separator-free input treated differently by the format and its separator-free counterpart")
     \o V(SepDeletionAt(o, i),        "C13", "deleting the separators changes acceptance or the value")
